@@ -103,6 +103,13 @@ def run(tier, seed):
     cb = [b for b in gc.beh if b["clauses"]]
     for b in (cb if thorough else rnd.sample(cb, min(len(cb), 400))):
         sup.append(("clauses", K.render(b) + "\n"))
+    # every word the grammar accepts between CREATE and TABLE (the production takes any identifier there), in either letter case
+    for w in ["UNLOGGED", "MULTISET", "HYBRID", "COLUMN", "MANAGED", "VOLATILE", "LOCAL TEMPORARY", "GLOBAL TEMPORARY", "TEMP", "TEMPORARY", "TRANSIENT", "EXTERNAL",
+              "ICEBERG", "OR REPLACE", "OR REPLACE TRANSIENT", "OR REPLACE TEMPORARY", "DIMENSION", "FACT", "SET"]:
+        w2 = w if rnd.random() < 0.5 else w.lower()
+        sup.append(("table kind", f"CREATE {w2} TABLE t1 (a int, b varchar(5));\nCREATE TABLE t2 (c int);\n"))
+        if w not in ("LOCAL TEMPORARY", "GLOBAL TEMPORARY"):     # (two kind words + IF NOT EXISTS is not a form the grammar has: OBSERVATIONS.md)
+            sup.append(("table kind", f"CREATE TABLE t0 (c int);\nCREATE {w2} TABLE IF NOT EXISTS s1.t1 (a int, b varchar(5)) ;\n"))
     states += gt.distinct + gr.distinct + ge.distinct + gc.distinct
     trans += gt.generated + gr.generated + ge.generated + gc.generated
     tasks = [(t, {"silent": False}, {}) for _, t in sup] + [(t, {}, {}) for _, t in sup]
@@ -111,7 +118,11 @@ def run(tier, seed):
     for i, (lab, t) in enumerate(sup):
         of, os_ = outs[i], outs[n + i]
         if os_[0] != "ok":
-            continue   # raises even when silent (ALTER of an unknown table ...): not a silent/raising difference
+            # (the generators' scripts are supported DDL: registry behaviours that end in the ValueError of an unknown ALTER target are not among them)
+            V.mismatch({"ddl": t, "source": lab, "problem": "supported DDL raises under silent=True", "error": os_[1:3]}, paths=["silent_raised"])
+            continue
+        if lab == "table kind" and [len(e.get("columns", [])) for e in os_[1] if "table_name" in e] not in ([2, 1], [1, 2]):
+            V.mismatch({"ddl": t, "source": lab, "problem": "a CREATE <kind> TABLE statement is not reported as a table"}, paths=["table_kind"])
         if of[0] != "ok":
             V.mismatch({"ddl": t, "source": lab, "problem": "supported DDL raises under silent=False", "error": of[1:3]}, paths=["supported_raised"])
         elif of[1] != os_[1]:
